@@ -212,6 +212,11 @@ func (e *Engine) checkInverted(
 		go check(ctx, innerCh)
 		select {
 		case result := <-innerCh:
+			if result.Err != nil {
+				// an error is not a membership answer and must not be inverted
+				resultCh <- checkgroup.Result{Err: result.Err}
+				return
+			}
 			// invert result here
 			switch result.Membership {
 			case checkgroup.IsMember:
